@@ -18,7 +18,9 @@ import json
 import contextlib
 import os
 import random
+import shutil
 import signal
+import tempfile
 
 from .common import paths, semgen, tables
 from .common.runner import Check
@@ -124,13 +126,18 @@ def shared_iv(j):
 
 # ---------------------------------------------------------------- renaming / shuffling / mutation
 
-def rename_shuffle(rng, j, rename=True, shuffle=True):
+RESORTS = ["x", "e", "i", "u", "p"]
+
+
+def rename_shuffle(rng, j, rename=True, shuffle=True, resort=False):
+    """resort=True: the renaming also changes the SORT of the non-handle variables (x5 -> e9 ...), consistently;
+    variable sorts are not among the things the property's bijection has to preserve"""
     j = copy.deepcopy(j)
     vs = all_vars(j)
     if rename:
         vids = list(range(1, 3 * len(vs) + 12))
         rng.shuffle(vids)
-        ren = {v: [v[0], vids[i]] for i, v in enumerate(vs)}
+        ren = {v: [v[0] if (not resort or v[0] == "h") else rng.choice(RESORTS), vids[i]] for i, v in enumerate(vs)}
     else:
         ren = {v: [v[0], v[1]] for v in vs}
 
@@ -613,7 +620,8 @@ def gen_carg_props(rng):
     return m
 
 
-FAMILIES = ["random", "random1", "dense", "cycle", "cycle2", "star", "copies", "mutual", "cargprops", "tree", "illformed"]
+FAMILIES = ["random", "random1", "dense", "cycle", "cycle2", "star", "copies", "mutual", "cargprops", "tree", "illformed",
+            "multihc"]
 
 
 def gen_family(rng, fam, big=False):
@@ -649,6 +657,9 @@ def gen_family(rng, fam, big=False):
         return m
     if fam == "illformed":
         return gen_random(rng, rng.choice([1, 2, 3, 4]), npred=2, missing_arg0=True, argp=0.5)
+    if fam == "multihc":
+        n = rng.choice([2, 3, 4, 5, 6]) if not big else rng.randrange(8, 25)
+        return add_multi_constraints(rng, gen_random(rng, n, npred=rng.choice([1, 2, 3]), argp=0.6, quant=0.4))
     raise ValueError(fam)
 
 
@@ -882,6 +893,12 @@ def det_blocks():
             mu = mutate(drng, m, what)
             if mu is not None and in_space(mu):
                 yield pair("mutant:" + what, "distant-context", rename_shuffle(drng, m), rename_shuffle(drng, mu))
+        # a renaming may also change variable SORTS (x -> e ...): not among the things an isomorphism preserves
+        yield pair("renamed", "resorted", m, rename_shuffle(drng, m, resort=True), True)
+        yield pair("renamed", "resorted", rename_shuffle(drng, m, resort=True), rename_shuffle(drng, m, resort=True), False)
+        mu = mutate(drng, m, "argtarget")
+        if mu is not None and in_space(mu):
+            yield pair("mutant:argtarget", "resorted", m, rename_shuffle(drng, mu, resort=True), True)
     # (b) a quantifier over a variable that is nobody's intrinsic variable; one property value changed
     base = some_bark()
     for other, sub in ((some_bark(pers="1"), "mutant:prop"), (some_bark(num="sg"), "mutant:prop"),
@@ -1006,6 +1023,268 @@ def det_blocks():
                "share_objects": False}
 
 
+# ---------------------------------------------------------------- deterministic blocks (round 6): several constraints
+# on ONE hole / ONE individual.  "h5 qeq h7, h5 qeq h9" is mildly ill-formed but NOT parallel (two different ordered
+# pairs of graph nodes), hence inside the property's quantifier; likewise several individual constraints leaving one
+# variable or arriving at one variable.  (Duplicate constraints and several constraints on the SAME ordered pair are
+# parallel: outside the quantifier, kept as correspondence-only corpus cases.)
+
+HC_RELS = ["qeq", "lheq", "outscopes"]
+IC_RELS = ["topic", "focus", "info-str"]
+
+
+def multi_hole(k, same_targets=False, rels=None, holes=1, top2=False):
+    """a head taking `holes` handle arguments; every hole carries k constraints to k different labels"""
+    rels = rels or ["qeq"] * k
+    head = ep("_say_v_1", ["h", 1], [["ARG0", ["e", 2]]])
+    out = {"top": ["h", 0], "index": ["e", 2], "rels": [head], "hcons": [[["h", 0], "qeq", ["h", 1]]], "icons": [],
+           "vars": []}
+    targets = []
+    for i in range(k + (1 if holes > 1 else 0)):
+        lbl = ["h", 20 + i]
+        targets.append(lbl)
+        out["rels"].append(ep("_t_v_1" if same_targets else "_t%d_v_1" % i, lbl, [["ARG0", ["e", 40 + i]]]))
+    for h in range(holes):
+        hole = ["h", 5 + h]
+        head["args"].append(["ARG%d" % (h + 1), hole])
+        for i in range(k):
+            out["hcons"].append([hole, rels[(i + h) % len(rels)], targets[i + h]])
+    if top2:
+        out["hcons"].append([["h", 0], "qeq", targets[-1]])
+    return out
+
+
+def multi_icons(fan):
+    """individual constraints: `fan` constraints leaving x10, `fan` arriving at x11, one antiparallel pair"""
+    n = fan + 2
+    rels = [ep("_n%d_n_1" % i, ["h", 1 + i], [["ARG0", ["x", 10 + i]]]) for i in range(n)]
+    icons = []
+    for i in range(fan):
+        icons.append([["x", 10], IC_RELS[i % 2], ["x", 11 + i]])          # same left, different rights
+    for i in range(fan):
+        if [["x", 12 + i], ["x", 11]] not in [[a, b] for a, _, b in icons]:
+            icons.append([["x", 12 + i], IC_RELS[(i + 1) % 2], ["x", 11]])  # different lefts, same right
+    icons.append([["x", 11], "topic", ["x", 10]])                          # antiparallel to the first one
+    return {"top": ["h", 0], "index": ["x", 10], "rels": rels, "hcons": [[["h", 0], "qeq", ["h", 1]]],
+            "icons": icons, "vars": []}
+
+
+def mutate_constraint_at(j, lst, i, how):
+    """single-point change of constraint number i of j[lst] (deterministic): its relation, its right-hand side or
+    its left-hand side; the new value is the first one that keeps the structure inside the input space and the
+    number of variables unchanged.  None when there is none."""
+    cycle = HC_RELS if lst == "hcons" else IC_RELS
+    if how == "rel":
+        mu = copy.deepcopy(j)
+        c = mu[lst][i]
+        c[1] = cycle[(cycle.index(c[1]) + 1) % len(cycle)] if c[1] in cycle else cycle[0]
+        return mu
+    side = 2 if how == "lo" else 0
+    old = j[lst][i]
+    pool = [w for w in all_vars(j) if (w[0] == "h") == (lst == "hcons") and w != tv(old[0]) and w != tv(old[2])]
+    for w in sorted(pool):
+        mu = copy.deepcopy(j)
+        mu[lst][i][side] = list(w)
+        if in_space(mu) and len(all_vars(mu)) == len(all_vars(j)):
+            return mu
+    return None
+
+
+def rotate_to(lst, i, pos):
+    """the same list with item i moved to position `pos` ("first", "middle", "last"), the others keeping their order"""
+    rest = lst[:i] + lst[i + 1:]
+    at = {"first": 0, "middle": len(rest) // 2, "last": len(rest)}[pos]
+    return rest[:at] + [lst[i]] + rest[at:]
+
+
+def multi_constraint_structs():
+    out = [("hole2", multi_hole(2)), ("hole3-same-targets", multi_hole(3, same_targets=True)),
+           ("hole3-mixed-relations", multi_hole(3, rels=["qeq", "lheq", "outscopes"])),
+           ("two-holes+top2", multi_hole(2, holes=2, top2=True)),
+           ("two-holes-same-targets", multi_hole(2, same_targets=True, holes=2, rels=["qeq", "lheq"])),
+           ("icons-fan2", multi_icons(2)), ("icons-fan3", multi_icons(3))]
+    both = multi_hole(2, holes=2)
+    # one structure with several handle AND several individual constraints
+    both["icons"] = [[["e", 2], "topic", ["e", 40]], [["e", 2], "focus", ["e", 41]], [["e", 42], "topic", ["e", 40]]]
+    out.append(("holes+icons", both))
+    return out
+
+
+def multi_constraint_blocks():
+    drng = random.Random(60606)
+    nprops = [0]
+
+    def pair(sub, m1, m2):
+        nprops[0] += 1
+        return {"kind": "pair", "sub": sub, "family": "multi-constraint", "m1": m1, "m2": m2,
+                "props": nprops[0] % 3 != 0, "seed": drng.randrange(1 << 30), "big": False}
+    for name, m in multi_constraint_structs():
+        assert in_space(m), name
+        # (1) the constraint lists reordered, nothing renamed: every rotation and the reversal
+        for lst in ("hcons", "icons"):
+            n = len(m[lst])
+            for r in range(1, n):
+                o = copy.deepcopy(m)
+                o[lst] = o[lst][r:] + o[lst][:r]
+                yield pair("shuffled", m, o)
+            if n > 2:
+                o = copy.deepcopy(m)
+                o[lst] = o[lst][::-1]
+                yield pair("shuffled", m, o)
+        # (2) renamed and permuted
+        for _ in range(3):
+            yield pair("renamed", rename_shuffle(drng, m), rename_shuffle(drng, m))
+        # (3) EACH constraint mutated (relation, right-hand side, left-hand side); the mutated constraint is put
+        # first, in the middle and last in its list (so "the last one per hole wins" and "the first one wins" both
+        # show), once with the original names and once renamed and shuffled
+        for lst in ("hcons", "icons"):
+            for i in range(len(m[lst])):
+                for how in ("rel", "lo", "hi"):
+                    mu = mutate_constraint_at(m, lst, i, how)
+                    if mu is None:
+                        continue
+                    seen = []
+                    for pos in (("first", "middle", "last") if how == "rel" else ("first", "last")):
+                        o = copy.deepcopy(mu)
+                        o[lst] = rotate_to(o[lst], i, pos)
+                        if o[lst] not in seen:
+                            seen.append(o[lst])
+                            yield pair("mutant:%s-%s@%s" % (lst, how, pos), m, o)
+                    yield pair("mutant:%s-%s" % (lst, how), m, rename_shuffle(drng, mu))
+
+
+def add_multi_constraints(rng, m):
+    """random dimension: give holes / individuals of a generated structure further (non-parallel) constraints"""
+    m = copy.deepcopy(m)
+    labels = sorted({tv(e["label"]) for e in m["rels"]})
+    his = sorted({tv(a) for a, _, _ in m["hcons"]})
+    for _ in range(rng.choice([1, 2, 3])):
+        if not his or not labels:
+            break
+        hi, lo = rng.choice(his), rng.choice(labels)
+        c = [list(hi), rng.choice(["qeq", "qeq", "lheq", "outscopes"]), list(lo)]
+        m["hcons"].insert(rng.randrange(len(m["hcons"]) + 1), c)
+        if not in_space(m):
+            m["hcons"].remove(c)
+    ivs = sorted({iv_of(e) for e in m["rels"] if iv_of(e) is not None and not is_quant(e)})
+    if len(ivs) >= 3:
+        a = rng.choice(ivs)
+        for b in rng.sample([v for v in ivs if v != a], 2):
+            c = [list(a), rng.choice(IC_RELS), list(b)] if rng.random() < 0.5 else [list(b), rng.choice(IC_RELS), list(a)]
+            m["icons"].insert(rng.randrange(len(m["icons"]) + 1), c)
+            if not in_space(m):
+                m["icons"].remove(c)
+    return m
+
+
+def multi_constraint_features(j):
+    his = collections.Counter(tv(a) for a, _, _ in j.get("hcons", []))
+    los = collections.Counter(tv(b) for _, _, b in j.get("hcons", []))
+    lefts = collections.Counter(tv(a) for a, _, _ in j.get("icons", []))
+    rights = collections.Counter(tv(b) for _, _, b in j.get("icons", []))
+    out = []
+    if his and max(his.values()) > 1:
+        out.append("feature:one hole with %s handle constraints" % ("2" if max(his.values()) == 2 else "3+"))
+    if los and max(los.values()) > 1:
+        out.append("feature:one label constrained from several holes")
+    if lefts and max(lefts.values()) > 1:
+        out.append("feature:one individual with several individual constraints (left)")
+    if rights and max(rights.values()) > 1:
+        out.append("feature:one individual with several individual constraints (right)")
+    return out
+
+
+# ---------------------------------------------------------------- the profile comparison command (round 6)
+# delphin.commands.compare(testsuite, gold) is the consumer the property's motivation names: it selects
+# (i-id, i-input, mrs) from two [incr tsdb()] profiles, decodes the MRS strings with the SimpleMRS codec, matches the
+# rows of the two profiles by item and calls compare_bags on each item's two bags (default arguments).
+
+COMPARE_RELATIONS = (
+    "item:\n  i-id :integer :key\n  i-input :string\n\n"
+    "parse:\n  parse-id :integer :key\n  i-id :integer :key\n  readings :integer\n\n"
+    "result:\n  parse-id :integer :key\n  result-id :integer\n  mrs :string\n")
+
+
+def write_profile(path, items, side):
+    from delphin.codecs import simplemrs
+    os.makedirs(path)
+    with open(os.path.join(path, "relations"), "w", encoding="utf-8") as f:
+        f.write(COMPARE_RELATIONS)
+    item, parse, result = [], [], []
+    for it in items:
+        ms = it[side]
+        if ms is None:          # the item is absent from this profile
+            continue
+        item.append("%d@%s" % (it["id"], it["input"]))
+        parse.append("%d@%d@%d" % (it["id"] + 1000, it["id"], len(ms)))
+        for k, j in enumerate(ms):
+            text = simplemrs.encode(semgen.mrs_from_json(copy.deepcopy(j)))
+            assert "@" not in text and "\n" not in text
+            result.append("%d@%d@%s" % (it["id"] + 1000, k, text))
+    for name, rows in (("item", item), ("parse", parse), ("result", result)):
+        with open(os.path.join(path, name), "w", encoding="utf-8") as f:
+            f.write("".join(r + "\n" for r in rows))
+
+
+def codec_safe(j):
+    """structures the SimpleMRS text carries unchanged: ASCII, a top, every variable of the `vars` list used"""
+    if not is_ascii_struct(j) or j.get("top") is None or not j["rels"]:
+        return False
+    used = set()
+    for e in j["rels"]:
+        used.add(tv(e["label"]))
+        used.update(tv(v) for _, v in e["args"])
+        if e.get("carg") is not None and ('"' in e["carg"] or "\\" in e["carg"]):
+            return False
+        if any(c in e["pred"] for c in ' "<>[]'):
+            return False
+    for a, _, b in list(j["hcons"]) + list(j["icons"]):
+        used.update((tv(a), tv(b)))
+    if j.get("index") is not None:
+        used.add(tv(j["index"]))
+    import re
+    for _, ps in j.get("vars", []):
+        if any(not re.fullmatch(r"[A-Za-z0-9.+_-]+", x) for kv in ps for x in kv):
+            return False           # (an empty property value is not readable SimpleMRS: another property's matter)
+    return all(tv(v) in used for v, _ in j.get("vars", []))
+
+
+def compare_case(rng, sub):
+    pool = [negation_chain(2), some_bark(), modifier_chain(2), negation_chain(3, True), multi_hole(2), multi_icons(2)]
+    for _ in range(4):
+        m = gen_family(rng, rng.choice(["random", "cycle", "star", "tree", "mutual", "cargprops", "multihc"]))
+        if in_space(m) and codec_safe(m):
+            pool.append(m)
+    for m in list(pool):
+        mu = mutate(rng, m, rng.choice(["pred", "argtarget", "prop", "hcrel", "carg", "hcons"]))
+        if mu is not None and in_space(mu) and codec_safe(mu):
+            pool.append(mu)
+    items = []
+    for k in range(rng.choice([1, 2, 3, 4])):
+        test = [copy.deepcopy(rng.choice(pool)) for _ in range(rng.choice([0, 1, 2, 3, 4]))]
+        r = rng.random()
+        if r < 0.4:
+            gold = [rename_shuffle(rng, m) for m in test]
+            rng.shuffle(gold)
+            if gold and rng.random() < 0.5:
+                gold.insert(rng.randrange(len(gold) + 1), rename_shuffle(rng, rng.choice(pool)))
+        else:
+            gold = [rename_shuffle(rng, rng.choice(pool)) for _ in range(rng.choice([0, 1, 2, 3]))]
+        it = {"id": 10 * (k + 1), "input": "item %d" % k, "test": test, "gold": gold}
+        if r > 0.9:
+            it[rng.choice(["test", "gold"])] = None
+        items.append(it)
+    # planted in every case: readings that differ ONLY in one property value (properties are compared by default),
+    # next to a true partner
+    base = rng.choice([some_bark(), some_bark(num="sg")] + [m for m in pool if any(ps for _, ps in m.get("vars", []))])
+    twin = mutate(rng, base, "prop")
+    if twin is not None and in_space(twin) and codec_safe(twin):
+        k = len(items)
+        items.append({"id": 10 * (k + 1), "input": "item %d" % k, "test": [copy.deepcopy(base), copy.deepcopy(twin)][: rng.choice([1, 2])],
+                      "gold": [rename_shuffle(rng, twin)]})
+    return {"kind": "compare", "sub": sub, "items": items, "props": True}
+
+
 def want_all_shared(ct, cg):
     return ct == cg
 
@@ -1064,6 +1343,7 @@ def run_iso(j1, j2, props):
 
 class C06(Check):
     pid = "C06"
+    props_modules = ["Verif.C06.Props", "Verif.C06.PropsIter"]
     quick_cases = 1500
     thorough_cases = 15000
     rule = ("pairs (m, m), (m, renamed+shuffled m), (m, renamed+shuffled single-point mutant of m: predicate, "
@@ -1082,7 +1362,15 @@ class C06(Check):
             "quantifier with properties with probability 0.12; 30% of the structures over a non-ASCII alphabet of predicates / constants / "
             "property values (ß/ss, ς/σ/Σ, ﬁ/fi, ſ/s, İ/ı/i, Kelvin sign, é vs e+U+0301, full-width, ǆ/ǅ) and the "
             "single-point mutations predtwin/cargtwin/proptwin/roletwin replace ONE character by its case, casefold, "
-            "NFC or NFKC twin. Non-trivial: at least one predication; distinct by JSON text.")
+            "NFC or NFKC twin. Round 6, deterministic in every tier: 7 structures in which ONE hole carries 2-3 handle "
+            "constraints to different labels (same or different relations, identical or distinct targets, two holes, "
+            "two constraints on the top) or ONE individual 2-3 individual constraints (same left / same right / an "
+            "antiparallel pair): every rotation and the reversal of the constraint lists, 3 renamed+shuffled copies, and "
+            "EACH constraint mutated in its relation, right-hand side and left-hand side with the mutated constraint "
+            "placed first / in the middle / last in its list and once renamed; family multihc adds such constraints to "
+            "random structures; renamings that change variable sorts; a purity battery on ONE pair of objects "
+            "(properties toggled, arguments swapped); 6 (thorough 60) runs of commands.compare on two written profiles "
+            "with planted property-only twins. Non-trivial: at least one predication; distinct by JSON text.")
     assumptions = [
         "input space: every non-quantifier predication has its own intrinsic variable (at most one predication "
         "without ARG0), no parallel constraints; ASCII names, no whitespace inside role names",
@@ -1095,8 +1383,21 @@ class C06(Check):
         "sharing an intrinsic variable or two predications without ARG0 (the verdict then depends on the order of "
         "the predications: the first one owns the graph node); role names starting with '--' (the inverse-edge "
         "marker; cleanGraph is the stated hypothesis of the soundness theorems)",
-        "the iterative stack machine of util._vf2 is modelled by the recursion it implements; tied to the code by "
-        "comparing the returned mapping (not only the verdict) on every generated pair",
+        "the iterative stack machine of util._vf2 (while loop, explicit stack, del mapping[prev_n]) and the agenda "
+        "loop of _vf2_new are modelled as written (lean/Verif/C06/Iter.lean) and PROVED to terminate and to return "
+        "the mapping of the depth-first recursion the other theorems are about (PropsIter.vf2Iter_terminates_eq_vf2, "
+        "vf2Iter_unique, feasibleCode_eq, vf2New_empty); the driver sends the LOOP's mapping and the sizes of the "
+        "_vf2_new sets (always 0) to the correspondence check on every generated pair",
+        "a hole / an individual may carry several constraints as long as no two lie on the same ORDERED pair of graph "
+        "nodes (h5 qeq h7, h5 qeq h9: inside the quantifier); duplicate constraints and two relations on one ordered "
+        "pair are parallel: outside, kept as correspondence-only corpus cases (the real code answers by the last one "
+        "written and is not reorder-invariant there)",
+        "a renaming may change the SORT of non-handle variables (x5 -> e9): variable sorts are not among the things the "
+        "property's bijection preserves, and the code ignores them",
+        "commands.compare (the profile comparison command) is run on two [incr tsdb()] profiles written by the harness "
+        "from codec-safe structures (ASCII, a top, non-empty property values): one row per item with a result in "
+        "either profile, the counting identities, shared = maximum matching by the exhaustive oracle; the model "
+        "answers compare_bags per item",
         "soundness theorem assumes edge labels that cannot be confused with the '--' inverse marker "
         "(checked by the driver on every case: always true for generated structures)",
         "proved for the model: soundness, completeness, exactness w.r.t. isomorphism of the encoding graphs, "
@@ -1185,7 +1486,11 @@ class C06(Check):
             return {"kind": "pair", "sub": sub, "family": fam, "m1": m1, "m2": m2, "props": props,
                     "seed": rng.randrange(1 << 30), "big": big}
         props = rng.random() < 0.7
-        yield mk("renamed", m, rename_shuffle(rng, m), props)
+        # (sort changes only on small structures: with names that sort after 'h…' the matcher maps a shared label
+        # early, every node becomes a candidate, and a 24-ring under one label takes minutes — time is not part of
+        # the property, and the harness's 20 s guard would call it non-termination)
+        resort = rng.random() < 0.25 and not big
+        yield mk("renamed", m, rename_shuffle(rng, m, resort=resort), props)
         if rng.random() < 0.25:
             yield mk("self", m, copy.deepcopy(m), props)
         if rng.random() < 0.3:
@@ -1212,6 +1517,10 @@ class C06(Check):
             yield {"kind": "pair", "sub": "unrelated", "family": "enum", "m1": m, "m2": rename_shuffle(drng, o),
                    "props": True, "seed": idx, "big": False}
         yield from det_blocks()
+        yield from multi_constraint_blocks()
+        crng = random.Random(7117)
+        for _ in range(6 if tier == "quick" else 60):
+            yield compare_case(crng, "deterministic")
         # deterministic: every twin pair in every slot (predicate, constant, property value, role)
         for k, (a, b) in enumerate(TWINS):
             for slot in ("pred", "carg", "prop", "role"):
@@ -1232,17 +1541,19 @@ class C06(Check):
         while count < n:
             r = rng.random()
             if r < 0.09:
-                c = self.gen_bags(rng)
+                c = self.gen_bags(rng) if r > 0.004 else compare_case(rng, "random")
                 yield c
                 count += 1
                 continue
             big = r > 0.93
             fam = rng.choice(FAMILIES if not big else ["random", "random1", "dense", "cycle", "cycle2", "star",
-                                                        "copies", "mutual", "tree"])
+                                                        "copies", "mutual", "tree", "multihc"])
             m = gen_family(rng, fam, big=big)
             if not in_space(m):
                 continue
-            if rng.random() < 0.3:
+            # (a LARGE ring whose predicates are recoloured at random is exponentially expensive for the backtracking
+            # matcher — 15 s for 24 predications — and the property says nothing about time: large rings stay plain)
+            if rng.random() < 0.3 and not (big and fam in ("cycle", "cycle2")):
                 m = unicodeify(rng, m)
             if big:
                 nbig += 1
@@ -1326,7 +1637,26 @@ class C06(Check):
                 count += 1
 
     # ---- implementation
+    def impl_compare(self, case):
+        from delphin import commands
+        d = tempfile.mkdtemp(dir="/var/tmp", prefix="c06-")
+        try:
+            write_profile(os.path.join(d, "test"), case["items"], "test")
+            write_profile(os.path.join(d, "gold"), case["items"], "gold")
+            with time_limit(LIMIT):
+                rows = list(commands.compare(os.path.join(d, "test"), os.path.join(d, "gold")))
+            # (the item key comes back as the text of the i-id field)
+            return [[int(r["id"]), r["input"], r["test"], r["shared"], r["gold"]] for r in rows]
+        except Nonterminating:
+            return {"err": "Nonterminating"}
+        except Exception as e:          # noqa: BLE001  (any error of the command on codec-safe profiles is a failure)
+            return {"err": type(e).__name__}
+        finally:
+            shutil.rmtree(d, ignore_errors=True)
+
     def impl(self, case):
+        if case["kind"] == "compare":
+            return self.impl_compare(case)
         if case["kind"] == "bags":
             test = build_bag(case["test"], case.get("share_objects"))
             gold = build_bag(case["gold"], case.get("share_objects"))
@@ -1347,14 +1677,27 @@ class C06(Check):
                 g2 = _operations._make_mrs_isograph(m2, props)
                 plain = canon_graph(g1)
                 mapping = util._vf2(g1, g2)          # augments g1, g2 in place
+                # the look-ahead helper on the augmented graph, under the empty and under the returned mapping
+                rnew = [sum(len(util._vf2_new({}, g1, n)) for n in g1),
+                        sum(len(util._vf2_new(mapping, g1, n)) for n in g1)]
             return {"iso": bool(verdict), "map": [[a, b] for a, b in mapping.items()], "g1": plain,
-                    "a1": canon_graph(g1)}
+                    "a1": canon_graph(g1), "rnew": rnew}
         except KeyError:
             return {"err": "KeyError"}
         except Nonterminating:
             return {"err": "Nonterminating"}
 
+    def model_expected(self, case, res):
+        if case["kind"] == "compare" and isinstance(res, list):
+            return [r[2:] for r in sorted(res)]
+        return super().model_expected(case, res)
+
     def model_request(self, case):
+        if case["kind"] == "compare":
+            # the model sees the bags of the items some profile has results for, in item order
+            items = [{"test": it["test"] or [], "gold": it["gold"] or []} for it in sorted(case["items"], key=lambda i: i["id"])
+                     if (it["test"] or it["gold"])]
+            return {"op": "compare", "items": items, "props": True}
         structs = (case["test"] + case["gold"]) if case["kind"] == "bags" else [case["m1"], case["m2"]]
         if not all(model_covers(j) for j in structs):
             return None       # case mapping of non-ASCII letters is not modelled: the direct oracle decides
@@ -1387,6 +1730,8 @@ class C06(Check):
         if case.get("oracle") == "skip":
             # structures OUTSIDE the property's input space, kept as correspondence-only cases
             return fails
+        if case["kind"] == "compare":
+            return self.oracle_compare(case, res, fail) or fails
         if case["kind"] == "bags":
             return self.oracle_bags(case, res, fail) or fails
         if isinstance(res, dict) and "err" in res:
@@ -1422,8 +1767,22 @@ class C06(Check):
             if dflt != verdict:
                 fail("default: is_isomorphic(m1, m2) compares properties (properties=True is the default)",
                      [verdict, dflt])
+        # purity: the SAME two objects through a battery of calls (properties toggled, arguments swapped, one object
+        # on both sides); every answer equals the one fresh objects give, and the objects are left as they were
+        o1, o2 = semgen.mrs_from_json(copy.deepcopy(j1)), semgen.mrs_from_json(copy.deepcopy(j2))
+        before = json.dumps([semgen.mrs_to_json(o1), semgen.mrs_to_json(o2)], sort_keys=True)
+        with time_limit(LIMIT):
+            got = [_mrs.is_isomorphic(o1, o2, properties=not props), _mrs.is_isomorphic(o2, o1, properties=props),
+                   _mrs.is_isomorphic(o1, o1, properties=props), _mrs.is_isomorphic(o1, o2, properties=props),
+                   _mrs.is_isomorphic(o1, o2, properties=not props)]
+        other = run_iso(j1, j2, not props)
+        if got != [other, back, True, verdict, other]:
+            fail("pure: repeated calls on the same MRS objects (properties toggled, arguments swapped) answer like "
+                 "fresh objects", {"got": got, "want": [other, back, True, verdict, other]})
+        if json.dumps([semgen.mrs_to_json(o1), semgen.mrs_to_json(o2)], sort_keys=True) != before:
+            fail("pure: is_isomorphic leaves its arguments unchanged", None)
         # ignoring properties can only merge classes
-        if props and verdict and run_iso(j1, j2, False) is not True:
+        if props and verdict and other is not True:
             fail("isomorphic with properties compared implies isomorphic with properties ignored", None)
         sub = case.get("sub", "")
         if sub in ("self", "renamed", "shuffled") and verdict is not True:
@@ -1441,6 +1800,38 @@ class C06(Check):
         if verdict and wl_differs(j1, j2, props):
             fail("exact: structures with different refinement colours are not isomorphic (false positive)", None)
         return fails
+
+    def oracle_compare(self, case, res, fail):
+        if isinstance(res, dict):
+            fail("compare: commands.compare raised or did not terminate", res)
+            return
+        want_items = {it["id"]: it for it in case["items"] if (it["test"] or it["gold"])}
+        if sorted(r[0] for r in res) != sorted(want_items):
+            fail("compare: one row per item that has a result in either profile", [sorted(r[0] for r in res), sorted(want_items)])
+            return
+        for iid, inp, u, s, g in res:
+            it = want_items[iid]
+            test, gold = it["test"] or [], it["gold"] or []
+            if inp != (it["input"] if it["test"] is not None else None):
+                fail("compare: the row carries the item's input (of the test profile)", [iid, inp])
+            if u + s != len(test) or s + g != len(gold):
+                fail("compare: unique-test + shared = size of test and shared + unique-gold = size of gold, per item",
+                     [iid, u, s, g, len(test), len(gold)])
+            classes, ct, cg, ok = [], collections.Counter(), collections.Counter(), True
+            for side, bag in ((ct, test), (cg, gold)):
+                for j in bag:
+                    for k, rep in enumerate(classes):
+                        b = brute_iso(rep, j, True)
+                        ok = ok and b is not None
+                        if b:
+                            side[k] += 1
+                            break
+                    else:
+                        classes.append(j)
+                        side[len(classes) - 1] += 1
+            if ok and s != sum(min(ct[k], cg[k]) for k in range(len(classes))):
+                fail("compare: shared equals the number of readings matchable up to isomorphism (properties compared)",
+                     {"item": iid, "got": [u, s, g], "want": sum(min(ct[k], cg[k]) for k in range(len(classes)))})
 
     def oracle_bags(self, case, res, fail):
         if isinstance(res, dict):
@@ -1504,6 +1895,15 @@ class C06(Check):
         def inc(k):
             counters[k] = counters.get(k, 0) + 1
         inc("kind:" + case["kind"])
+        if case["kind"] == "compare":
+            inc("compare:items=%d" % len(case["items"]))
+            for it in case["items"]:
+                inc("compare:item absent from one profile" if None in (it["test"], it["gold"]) else
+                    "compare:item bags %s/%s" % (min(len(it["test"]), 3), min(len(it["gold"]), 3)))
+            if isinstance(res, list):
+                for r in res:
+                    inc("compare:shared=%d" % min(r[3], 3))
+            return
         structs = (case["test"] + case["gold"]) if case["kind"] == "bags" else [case["m1"], case["m2"]]
         if not all(is_ascii_struct(j) for j in structs):
             inc("alphabet:non-ASCII")
@@ -1540,6 +1940,8 @@ class C06(Check):
                 inc("feature:several roles to one target")
         else:
             inc("err")
+        for f in multi_constraint_features(case["m1"]):
+            inc(f)
         if case["m1"].get("icons"):
             inc("feature:icons")
         if any(e.get("carg") is not None for e in case["m1"]["rels"]):
